@@ -74,6 +74,13 @@ func toCodeSignature(t *types.Signature) *jen.Statement {
 	jenParams := []jen.Code{}
 	params := t.Params()
 	for i := 0; i < params.Len(); i++ {
+		if t.Variadic() && i == params.Len()-1 {
+			// the type of a variadic parameter is []T, it is written as ...T
+			if slice, ok := params.At(i).Type().(*types.Slice); ok {
+				jenParams = append(jenParams, jen.Op("...").Add(toCode(slice.Elem())))
+				continue
+			}
+		}
 		jenParams = append(jenParams, toCode(params.At(i).Type()))
 	}
 
